@@ -43,6 +43,38 @@ Theorem C05_multi_partial_class : forall i, inclass_C05 i = true ->
 Proof. exact inclass_holds. Qed.
 Print Assumptions C05_multi_partial_class.
 
+(* ---------- command.stamp end to end (committed rows read by a fresh connection) ---------- *)
+(* the decider the engine applies (either kind of case) is sound *)
+Theorem C05_any_decider_sound : forall i o, check_C05_any i o = true -> C05_any_holds i o.
+Proof. exact any_decider_sound. Qed.
+Print Assumptions C05_any_decider_sound.
+
+Theorem C05_e2e_single : forall G purge t H, ~ cyclic (all_down G) -> ndeps_okb G = true ->
+  E2E_holds (G, purge, [[t]], Some [t], H) (model_e2e (G, purge, [[t]], Some [t], H)).
+Proof. exact e2e_single. Qed.
+Print Assumptions C05_e2e_single.
+
+Theorem C05_e2e_base : forall G purge H, ~ cyclic (all_down G) -> ndeps_okb G = true ->
+  E2E_holds (G, purge, [[]], None, H) (model_e2e (G, purge, [[]], None, H)).
+Proof. exact e2e_base. Qed.
+Print Assumptions C05_e2e_base.
+
+(* C05_purge end to end: with --purge the committed rows are exactly the target, whatever the table held before
+   (rows that are not revisions of the history included) *)
+Theorem C05_e2e_purge_any_table : forall G t H, ~ cyclic (all_down G) -> ndeps_okb G = true -> wf_refsb G = true -> In t (ids G) ->
+  exists rws', model_e2e (G, true, [[t]], Some [t], H) = Ok rws' /\ forall x, In x rws' <-> x = t.
+Proof. exact e2e_purge_any_table. Qed.
+Print Assumptions C05_e2e_purge_any_table.
+
+(* label@head: REFUTED — a row that shares lineage only with the revision carrying the label (not with the destination) is
+   folded into the destination, while the same destination given by id leaves it alone (found by the end-to-end correspondence) *)
+Theorem C05_label_head_refuted :
+  pre_C05 (Gl, false, TIds [2]%N, [1;3]%N) = true /\ ~ cyclic (all_down Gl) /\ ndeps_okb Gl = true /\
+  ~ E2E_holds il (model_e2e il) /\
+  E2E_holds (Gl, false, [[2]]%N, Some [2]%N, [1;3]%N) (model_e2e (Gl, false, [[2]]%N, Some [2]%N, [1;3]%N)).
+Proof. exact label_head_refuted. Qed.
+Print Assumptions C05_label_head_refuted.
+
 (* ---------- non-vacuity ---------- *)
 (* the three kinds of single-target stamp on the witness history: move a branch up (a -> e), a new branch (b), down (e -> c) *)
 Example C05_single_nonvacuous :
@@ -67,4 +99,10 @@ Example C05_multi_partial_nonvacuous :
     Ok ([StampStep [] [1]%N true true; StampStep [2]%N [3]%N true false], [ObsOk [2;4;1]%N [Ins 1%N]; ObsOk [3;4;1]%N [Upd 2%N 3%N 1]]) /\
   inclass_C05 (Gw, false, THeads [1;3;4]%N, [2]%N) = true /\
   inclass_C05 iw = false.
+Proof. repeat split; vm_compute; reflexivity. Qed.
+Example C05_e2e_nonvacuous :
+  model_e2e (Gw, true, [[]], None, [99;2]%N) = Ok [] /\ pre_C05 (Gw, false, TBase, e2e_start true [99;2]%N) = true /\
+  model_e2e (Gw, true, [[3]]%N, Some [3]%N, [99]%N) = Ok [3]%N /\
+  model_e2e (Gw, false, [[3]]%N, Some [3]%N, [99]%N) = Err ECommand /\
+  model_e2e (Gw, false, [[2;3]]%N, Some [3]%N, [2;4]%N) = Ok [3;4]%N.
 Proof. repeat split; vm_compute; reflexivity. Qed.
